@@ -379,7 +379,7 @@ func (g *G) call(op string, serial uint32) callSpec {
 				}
 			}
 			if len(doors) != len(pd) {
-				pd2 = append(pd2, "changed")
+				pd2 = append(pd2, []any{-1, len(doors)}) // (same shape as an entry: TLC compares values of one kind only)
 			}
 			fm2 := []any{}
 			for _, x := range formats {
@@ -432,7 +432,7 @@ func (g *G) call(op string, serial uint32) callSpec {
 			}
 			for k := range profile.Segments {
 				if k < 1 || k > 3 {
-					ps2 = append(ps2, []any{int(k), "unexpected key"})
+					ps2 = append(ps2, []any{int(k), segPair(projHHmm(profile.Segments[k].Start), projHHmm(profile.Segments[k].End))})
 				}
 			}
 			pw2 := []any{}
@@ -541,7 +541,7 @@ func (g *G) call(op string, serial uint32) callSpec {
 				}
 			}
 			if len(readers) != len(pr) {
-				pr2 = append(pr2, "changed")
+				pr2 = append(pr2, []any{-1, len(readers)%2 == 0}) // (same shape as an entry)
 			}
 			return M{"serial": u32(serial), "readers": pr2}
 		}
